@@ -382,7 +382,7 @@ void oracle_backtrace(World& W)
     {
       W.r->label("sink_threw_during_backtrace_replay");
       size_t reported = 0;
-      for (auto const& n : W.notes) if (n.find("injected write_log failure") != std::string::npos) ++reported;
+      for (auto const& n : W.notes) if (n.find("injected write_log failure") != std::string::npos || n.find("Caught unhandled exception") != std::string::npos) ++reported;
       size_t all_threw = 0;
       for (auto const& e : W.journal) if (e.kind == 'X') ++all_threw;
       if (reported < all_threw && li + 1 == W.loggers.size())
